@@ -165,11 +165,19 @@ func onlyConstantOf(c *core.Ctx, fa *ssa.FieldAddr) (string, bool) {
 
 func exposureAtom(c *core.Ctx, ro *core.Roles, cond ssa.Value) string {
 	cond = core.Norm(cond)
+	if u, ok := cond.(*ssa.UnOp); ok && u.Op == token.NOT {
+		// a negation of something built from allowed atoms is built from allowed atoms (which combination of them
+		// exposes is decided by the exposer table's expose-iff-condition row)
+		if k := exposureAtom(c, ro, u.X); k != "" {
+			return "not (" + k + ")"
+		}
+		return ""
+	}
 	if phi, ok := cond.(*ssa.Phi); ok {
-		// short-circuit &&: every edge is the constant false or an allowed atom, and every branch that selects
+		// short-circuit && / ||: every edge is a boolean constant or an allowed atom, and every branch that selects
 		// between the edges (the blocks between the phi's immediate dominator and the phi) tests an allowed atom
 		for _, e := range phi.Edges {
-			if k, isK := e.(*ssa.Const); isK && k.Value != nil && k.Value.String() == "false" {
+			if k, isK := e.(*ssa.Const); isK && k.Value != nil && (k.Value.String() == "false" || k.Value.String() == "true") {
 				continue
 			}
 			if exposureAtom(c, ro, e) == "" {
@@ -189,7 +197,7 @@ func exposureAtom(c *core.Ctx, ro *core.Roles, cond ssa.Value) string {
 				}
 			}
 		}
-		return "conjunction of allowed atoms"
+		return "combination of allowed atoms"
 	}
 	if call, ok := cond.(*ssa.Call); ok {
 		if core.IsInvoke(call.Common(), ro.SCRIsCreating) {
